@@ -1,6 +1,7 @@
 package main
 
 import (
+	"os"
 	"sort"
 	"strings"
 )
@@ -81,14 +82,16 @@ func parseRaces(log string) []raceReport {
 // Two long-standing root causes in package packet produce races with an open-ended set of
 // partner functions; their reports are keyed by the root-cause site alone so that one finding
 // stays one finding however long the exploration runs. Every other race keeps both functions.
-var raceAnchors = []struct{ fn, key string }{
-	{"packet/fastlog.(*Line).Struct", "logging read of Host/MACEntry state without the row lock (PrintTable -> fastlog)"},
-	{"packet.(*MACEntry).FastLog", "logging read of Host/MACEntry state without the row lock (PrintTable -> fastlog)"},
-	{"packet.Host.FastLog", "logging read of Host/MACEntry state without the row lock (PrintTable -> fastlog)"},
-	{"packet.(*Session).onlineTransition", "packet.(*Session).onlineTransition writes Host/MACEntry state without the row lock"},
-}
+// raceAnchors maps a function that must appear on one side of a report to a root-cause key, so
+// that a recorded finding is matched by its cause rather than by every pair it shows up in.
+// Empty since the two root causes once listed here (onlineTransition and PrintTable logging
+// without the row lock) were repaired in /repo: every report is keyed by its pair again.
+var raceAnchors = []struct{ fn, key string }{}
 
 func raceKey(a, b string) string {
+	if os.Getenv("VCHECK_RAW_RACES") != "" { // development aid: per-pair keys, no root-cause anchors
+		return a + " <-> " + b
+	}
 	for _, an := range raceAnchors {
 		if a == an.fn || b == an.fn {
 			return an.key + " <-> (any)"
